@@ -19,6 +19,7 @@ mod fam_emitter;
 mod fam_files;
 mod fam_options;
 mod fam_preproc;
+mod fam_repro;
 mod fam_scope;
 mod fam_snippet;
 mod fam_syntax;
@@ -98,6 +99,7 @@ pub fn make_family(name: &str) -> Option<Box<dyn Family>> {
         "snippet" => Some(Box::new(fam_snippet::Snippet::default())),
         "scope" => Some(Box::new(fam_scope::Scope::default())),
         "aliaschain" => Some(Box::new(fam_scope::AliasChain::default())),
+        "repro" => Some(Box::new(fam_repro::Repro::default())),
         "wire" => Some(Box::new(fam_wire::Wire::default())),
         _ => None,
     }
